@@ -47,7 +47,8 @@ def dds_hash_commut(i: List[Tuple[HashKey, PyHash]]) -> Optional[PyHash]:
 
 
 def _algo_str(s: str) -> PyHash:
-    return _algo_bytes(s.encode("utf-8"))
+    # surrogatepass: a str holding a lone surrogate is still a str (same bytes for all other strings)
+    return _algo_bytes(s.encode("utf-8", "surrogatepass"))
 
 
 def _algo_bytes(b: bytes) -> PyHash:
